@@ -709,6 +709,9 @@ def factories(ctx):
     # BNAF: only the default orientation (log_prob = forward pass); invert=False would need the numerical inverse, which can hang
     add("block_neural_autoregressive_flow", [2] if q else [1, 2, 3], lambda k, d, inv: F.block_neural_autoregressive_flow(
         k, base_dist=D.StandardNormal((d,)), nn_block_dim=3, flow_layers=2, invert=True))
+    # the documented non-default activation: its log-gradient is unbounded below, far-out inputs underflow matmul columns (seeded change C18c)
+    add("block_neural_autoregressive_flow[Tanh]", [3] if q else [1, 2, 3], lambda k, d, inv: F.block_neural_autoregressive_flow(
+        k, base_dist=D.StandardNormal((d,)), nn_block_dim=4, flow_layers=1, invert=True, activation=B.Tanh()))
     add("planar_flow", [2] if q else [1, 2, 3], lambda k, d, inv: F.planar_flow(k, base_dist=D.StandardNormal((d,)), flow_layers=3, invert=True))
     if not q:
         add("planar_flow[leaky_relu]", [2, 3], lambda k, d, inv: F.planar_flow(
@@ -723,7 +726,7 @@ def flow_inputs(ctx, dist, dim, n):
     +-tanh(max_val), +-1, 0, neighbours, magnitudes to 1e4) and random normals; plus nan/inf rows."""
     l = L()
     W, jax = l["W"], l["jax"]
-    consts = {0.0, 1.0, -1.0, 2.0, -2.0, 3.0, -3.0, math.tanh(3.0), -math.tanh(3.0), 1e4, -1e4, 100.0, -100.0, 19.5, 1e-300}
+    consts = {0.0, 1.0, -1.0, 2.0, -2.0, 3.0, -3.0, math.tanh(3.0), -math.tanh(3.0), 1e4, -1e4, 1e3, -1e3, 500.0, 100.0, -100.0, 19.5, 1e-300}
     ud = W.unwrap(dist)
     for leaf in jax.tree_util.tree_leaves(ud, is_leaf=lambda n: type(n).__name__ in ("RationalQuadraticSpline", "LeakyTanh")):
         nm = type(leaf).__name__
